@@ -13,6 +13,27 @@ struct Profile
     unsigned first_new_percent{85};               // probability that a program starts with NEW
 };
 
+// C17: operations whose allocations are failed one by one
+inline std::vector<std::pair<unsigned, uint8_t>> fault_targets(unsigned caps)
+{
+    std::vector<std::pair<unsigned, uint8_t>> t;
+    const bool copy = (caps & CAP_COPY) && (caps & CAP_COPYASSIGN);
+    t.push_back({3, K_NEW});
+    t.push_back({5, K_RESERVE});
+    t.push_back({4, K_MOVEASSIGN});
+    t.push_back({3, K_ELEM_FROM_REF});
+    t.push_back({2, K_ELEM_MOVEASSIGN});
+    t.push_back({1, K_ELEM_MOVE});
+    if (copy)
+    {
+        t.push_back({4, K_COPYCTOR});
+        t.push_back({4, K_COPYASSIGN});
+        t.push_back({2, K_ELEM_COPY});
+        t.push_back({3, K_ELEM_COPYASSIGN});
+    }
+    return t;
+}
+
 inline Profile profile_for(int prop, unsigned caps)
 {
     Profile p;
@@ -139,6 +160,12 @@ inline Profile profile_for(int prop, unsigned caps)
             add(K_COMPARE_ELEM, 8);
             add(K_ELEM_FROM_REF, 4);
             add(K_RESERVE, 1);
+            break;
+        case 17:  // prefix of a fault-injection case; the target op is appended by the engine
+            history(2);
+            copies(1);
+            elems(1);
+            add(K_DESTROY, 1);
             break;
         case 16:
             history(2);
